@@ -481,9 +481,6 @@ func (c *checker) run(kind, feature, eng string, idx bleve.Index, req *bleve.Sea
 	c.r.Eval(1)
 	if timing {
 		c.r.Count("timing_ms:"+kind+":"+eng, time.Since(t0).Milliseconds())
-		if d, ok := rep["distance"]; ok {
-			c.r.Count(fmt.Sprintf("timing_ms:%s:%s:%v:polar=%v", kind, eng, d, math.Abs(rep["lat"].(float64)) > 89), time.Since(t0).Milliseconds())
-		}
 	}
 	if pv != nil {
 		c.r.Violation(fmt.Sprintf("%s:panic:%s:%s", kind, eng, feature), fmt.Sprintf("%v: panic %v @ %s", rep, pv, mc.TrimStack(st)), rep)
@@ -764,18 +761,21 @@ func mkRing(v []pt, cw, closed bool) []pt {
 func polygonsOver(r *mc.Run, lons, lats []float64, triLons, triLats []float64) []polygon {
 	var ps []polygon
 	n, nu := 0, 0
-	variants := func(kind string, v []pt) {
-		// winding and closing are coordinates of the product; quick rotates through them
-		for vi := 0; vi < 4; vi++ {
-			if r.Quick() && vi != n%4 {
-				continue
+	// winding (ccw / cw) and ring form (open / closed) are coordinates of the product; each
+	// polygon gets k of the four combinations, rotating, so that every combination occurs with
+	// every family (a run over all four for every polygon costs 4× for the same code paths).
+	variants := func(kind string, v []pt, k int) {
+		for j := 0; j < k; j++ {
+			vi := (n + j) % 4
+			if j == 1 {
+				vi = (n % 4) ^ 3 // the opposite winding and ring form
 			}
 			cw, closed := vi&1 == 1, vi&2 == 2
 			pg := finishPolygon(polygon{v: mkRing(v, cw, closed), kind: kind, cw: cw, closed: closed})
 			if !pg.asserted {
-				// executed only for "no panic, no error": quick keeps every eighth
+				// executed only for "no panic, no error": keep every eighth (thorough: every fourth)
 				nu++
-				if r.Quick() && nu%8 != 0 {
+				if nu%mc.Pick(r, 8, 4) != 0 {
 					continue
 				}
 			}
@@ -787,7 +787,7 @@ func polygonsOver(r *mc.Run, lons, lats []float64, triLons, triLats []float64) [
 		for _, x1 := range lons[i+1:] {
 			for j, y0 := range lats {
 				for _, y1 := range lats[j+1:] {
-					variants("rect", []pt{{x0, y0}, {x1, y0}, {x1, y1}, {x0, y1}})
+					variants("rect", []pt{{x0, y0}, {x1, y0}, {x1, y1}, {x0, y1}}, mc.Pick(r, 1, 2))
 					mid := between(lons, x0, x1)
 					if len(mid) > 0 {
 						var v []pt
@@ -800,7 +800,7 @@ func polygonsOver(r *mc.Run, lons, lats []float64, triLons, triLats []float64) [
 							v = append(v, pt{mid[k], y1})
 						}
 						v = append(v, pt{x0, y1})
-						variants("rect-dense", v)
+						variants("rect-dense", v, 1)
 					}
 				}
 			}
@@ -815,7 +815,7 @@ func polygonsOver(r *mc.Run, lons, lats []float64, triLons, triLats []float64) [
 	for a := 0; a < len(tl); a++ {
 		for b := a + 1; b < len(tl); b++ {
 			for c := b + 1; c < len(tl); c++ {
-				variants("tri", []pt{tl[a], tl[b], tl[c]})
+				variants("tri", []pt{tl[a], tl[b], tl[c]}, 1)
 			}
 		}
 	}
@@ -832,13 +832,13 @@ func skipSlow(r *mc.Run, e engine, i int) bool {
 func phaseGrid(r *mc.Run, c *checker, engs []engine) (gridPts []pt) {
 	offs := mc.Pick(r,
 		[]float64{0, -1, 1, -20, 20, -1000, 1000},
-		[]float64{0, -1, 1, -2, 2, -5, 5, -11, 11, -13, 13, -20, 20, -1000, 1000, -300000, 300000})
+		[]float64{0, -1, 1, -5, 5, -11, 11, -13, 13, -20, 20, -1000, 1000, -300000, 300000})
 	boxLons := mc.Pick(r, []float64{-180, -135, -45, 0, 45, 135, 180}, []float64{-180, -179.99, -135, -90, -45, 0, 45, 90, 135, 179.99, 180})
 	boxLats := mc.Pick(r, []float64{-90, -45, 0, 45, 90}, []float64{-90, -89.99, -45, 0, 45, 89.99, 90})
-	polyLons := mc.Pick(r, []float64{-180, -45, 45, 180}, []float64{-180, -135, -90, -45, 0, 45, 90, 135, 180})
+	polyLons := mc.Pick(r, []float64{-180, -45, 45, 180}, []float64{-180, -135, -45, 0, 45, 135, 180})
 	polyLats := mc.Pick(r, []float64{-90, -89.99, -45, 0, 45, 89.99}, []float64{-90, -89.99, -45, 0, 45, 89.99, 90})
-	triLons := mc.Pick(r, []float64{-180, 0, 45, 135}, []float64{-180, -135, -45, 0, 45, 135, 180})
-	triLats := mc.Pick(r, []float64{-89.99, 0, 45}, []float64{-89.99, -45, 0, 45, 89.99})
+	triLons := mc.Pick(r, []float64{-180, 0, 45, 135}, []float64{-180, -45, 0, 45, 135})
+	triLats := mc.Pick(r, []float64{-89.99, 0, 45}, []float64{-89.99, -45, 0, 45})
 
 	edgeLons := append(append([]float64{}, boxLons...), polyLons...)
 	edgeLats := append(append([]float64{}, boxLats...), polyLats...)
@@ -1025,10 +1025,16 @@ func phaseCentres(r *mc.Run, c *checker, engs []engine) (edgePts []pt) {
 		// quick tier: building a gtreap index costs ~1 s of CPU per centre, and a circle of
 		// thousands of kilometres ~10^5 dictionary probes without the plugin; upsidedown runs the
 		// same searcher code as plugin-less scorch, so quick gives upsidedown every fourth centre
-		// and plugin-less scorch the two largest radii from every fourth centre (thorough: all).
+		// and both plugin-less engines the two largest radii from every eighth centre (thorough: all).
 		engs := engs
 		if r.Quick() && ci%4 != 2 {
 			engs = engs[:2]
+		}
+		skipCostly := func(e engine, m float64) bool {
+			if !r.Quick() || m < 5e6 {
+				return false
+			}
+			return (e.name == "scorch" && ci%8 != 0) || (e.name == "upsidedown" && ci%8 != 2)
 		}
 		idxs := make([]bleve.Index, len(engs))
 		for i, e := range engs {
@@ -1051,7 +1057,7 @@ func phaseCentres(r *mc.Run, c *checker, engs []engine) (edgePts []pt) {
 			rep := map[string]any{"shape": fmt.Sprintf("circle centre=(%v,%v) radius=%s", ctr.Lon, ctr.Lat, rad.label),
 				"query": "NewGeoDistanceQuery(lon, lat, distance)", "lon": ctr.Lon, "lat": ctr.Lat, "distance": rad.label, "field": "loc"}
 			for ei, e := range engs {
-				if r.Quick() && rad.m >= 5e6 && e.name == "scorch" && ci%4 != 0 {
+				if skipCostly(e, rad.m) {
 					continue
 				}
 				q := bleve.NewGeoDistanceQuery(ctr.Lon, ctr.Lat, rad.label)
@@ -1077,6 +1083,9 @@ func phaseCentres(r *mc.Run, c *checker, engs []engine) (edgePts []pt) {
 		}
 		// and over the hits of a large circle (sort applied to a geo query)
 		for ei, e := range engs {
+			if skipCostly(e, 5e6) {
+				continue
+			}
 			q := bleve.NewGeoDistanceQuery(ctr.Lon, ctr.Lat, "1000km")
 			q.SetField("loc")
 			c.sortCheck(e.name, idxs[ei], ctr, false, byID, size, q)
